@@ -211,6 +211,7 @@ func lemmaInstances(text string, level int) []string {
 		add("(=> (>= %s 0) (>= (pow2 %s) 1))", t, t)
 	}
 	add("(= (pow2 0) 1)")
+	add("(= (pow2 1) 2)")
 	add("(= (pow2 64) 18446744073709551616)")
 	add("(= (pow2 128) 340282366920938463463374607431768211456)")
 	for i, a := range p2 {
